@@ -27,6 +27,9 @@ pub enum Behaviour {
     Tls(Cert),
     /// refuse StartTLS with this result code
     Refuse(u32),
+    /// refuse StartTLS with this result code, but go along with a TLS handshake (trusted
+    /// certificate) if the client starts one anyway
+    RefuseThenTls(u32),
     /// answer StartTLS with bytes that are not an LDAP message
     Garbage,
     /// answer StartTLS with a well-formed non-extended response
@@ -148,6 +151,10 @@ async fn handle(mut s: TcpStream, setup: Setup, tap: Arc<Mutex<Tap>>) {
                 drain_clear(&mut s, &tap).await;
                 return;
             }
+            Behaviour::RefuseThenTls(rc) => {
+                let _ = s.write_all(&ext_ok(*rc)).await;
+                // falls through to the TLS phase: a client that honours the refusal just closes
+            }
             Behaviour::Garbage => {
                 let _ = s.write_all(&[0x16, 0x03, 0x01, 0x00, 0x02, 0xff, 0xff]).await;
                 drain_clear(&mut s, &tap).await;
@@ -268,7 +275,7 @@ async fn client(setup: &Setup, port: u16) -> Obs {
 
 fn matrix(rng: &mut Rng, reps: usize) -> Vec<Setup> {
     let mut v = vec![];
-    let refusals = [1u32, 2, 8, 13, 48, 52, 53, 80, 123];
+    let refusals = [1u32, 2, 3, 4, 5, 6, 7, 8, 10, 11, 12, 13, 14, 32, 48, 49, 50, 52, 53, 80, 88, 122, 123, 4096];
     for _ in 0..reps {
         for &no_verify in &[false, true] {
             for &host_is_ip in &[false, true] {
@@ -279,7 +286,10 @@ fn matrix(rng: &mut Rng, reps: usize) -> Vec<Setup> {
                     Behaviour::Tls(Cert::Untrusted),
                     Behaviour::Tls(Cert::SelfSigned),
                     Behaviour::Refuse(*rng.pick(&refusals)),
-                    Behaviour::Refuse(*rng.pick(&refusals)),
+                    Behaviour::Refuse(10),
+                    Behaviour::RefuseThenTls(*rng.pick(&refusals)),
+                    Behaviour::RefuseThenTls(10),
+                    Behaviour::RefuseThenTls(1 + rng.below(123) as u32),
                     Behaviour::Garbage,
                     Behaviour::WrongResponse,
                     Behaviour::Close,
@@ -350,7 +360,7 @@ fn judge(setup: &Setup, obs: &Obs, tap: &Tap, rep: &mut Report) {
     }
     // ---- establishment outcome ----
     let must_fail = match &setup.behaviour {
-        Behaviour::Refuse(_) | Behaviour::Garbage | Behaviour::WrongResponse | Behaviour::Close => true,
+        Behaviour::Refuse(_) | Behaviour::RefuseThenTls(_) | Behaviour::Garbage | Behaviour::WrongResponse | Behaviour::Close => true,
         Behaviour::Tls(c) => *c != Cert::Good && !setup.no_verify,
         Behaviour::InjectSameSegment(_) | Behaviour::InjectDelayed => false,
     };
@@ -361,6 +371,7 @@ fn judge(setup: &Setup, obs: &Obs, tap: &Tap, rep: &mut Report) {
         Behaviour::Tls(Cert::Untrusted) => "untrusted-ca-certificate".into(),
         Behaviour::Tls(Cert::SelfSigned) => "self-signed-certificate".into(),
         Behaviour::Refuse(_) => "starttls-refused".into(),
+        Behaviour::RefuseThenTls(rc) => if *rc == 10 { "starttls-refused-with-referral-code-but-server-handshakes".into() } else { "starttls-refused-but-server-handshakes".into() },
         Behaviour::Garbage => "garbage-response".into(),
         Behaviour::WrongResponse => "non-extended-response".into(),
         Behaviour::Close => "server-closes".into(),
